@@ -114,7 +114,28 @@ def prop_equiv(t1, t2, max_ops=7, max_atoms=6):
     return True, "equal on every equality pattern of %d value(s) and every valuation of %d opaque condition(s)" % (len(ops), len(atoms))
 
 
+def push_not(t, neg=False):
+    """Negations pushed through quantifiers and connectives: ¬∃x P = ∀x ¬P, ¬∀x P = ∃x ¬P, De Morgan, ¬¬P = P; comparison atoms stay
+    under a single `not` (their own dual is handled where atoms are compared)."""
+    k = t[0]
+    if k == "not":
+        return push_not(t[1], not neg)
+    if k in ("exists", "forall"):
+        kk = k if not neg else ("forall" if k == "exists" else "exists")
+        return (kk, t[1], t[2], push_not(t[3], neg))
+    if k in ("and", "or"):
+        kk = k if not neg else ("or" if k == "and" else "and")
+        return (kk, push_not(t[1], neg), push_not(t[2], neg))
+    if k == "const":
+        return ("const", (not t[1]) if neg else t[1])
+    return ("not", t) if neg else t
+
+
 def equiv(t1, t2):
+    return _equiv(push_not(t1), push_not(t2))
+
+
+def _equiv(t1, t2):
     """Equivalence of two condition trees: matching quantifier prefixes are peeled (same kind, class and dummy), conjunctions /
     disjunctions that contain quantifiers are matched as multisets, the quantifier-free remainder propositionally."""
     if t1[0] in ("exists", "forall") and t2[0] == t1[0]:
@@ -123,13 +144,13 @@ def equiv(t1, t2):
             t2 = _rename(t2, t2[1], t1[1])
         if t1[2] != t2[2]:
             return False, "quantifier ranges differ: %s∈%s vs %s∈%s" % (t1[1], t1[2], t2[1], t2[2])
-        return equiv(t1[3], t2[3])
+        return _equiv(t1[3], t2[3])
     for k in ("and", "or"):
         if t1[0] == k and t2[0] == k:
             a, b = flatten(t1, k), flatten(t2, k)
             if any(has_quant(x) for x in a + b) and len(a) == len(b):
                 for perm in itertools.permutations(b):
-                    res = [equiv(x, y) for x, y in zip(a, perm)]
+                    res = [_equiv(x, y) for x, y in zip(a, perm)]
                     if all(r[0] for r in res):
                         return True, "; ".join(r[1] for r in res)
                 return False, "no matching of the %d %s-parts makes them pairwise equivalent" % (len(a), k)
